@@ -28,8 +28,8 @@ class VExecutor(Executor):
     """Base executor + scripted measurement outcomes + a gate log + one yield
     per executed instruction (so that the rig can step and snapshot)."""
 
-    def __init__(self, name="verif", node_id=0, meas_script=None):
-        super().__init__(name=name)
+    def __init__(self, name="verif", node_id=0, meas_script=None, instr_log_dir=None, **kwargs):
+        super().__init__(name=name, instr_log_dir=instr_log_dir)
         self._vnode_id = node_id
         self.meas_script: List[int] = list(meas_script or [])
         self.gate_log: List[Tuple] = []
@@ -426,3 +426,246 @@ def explore_schedules(scn, max_depth=40, max_paths=4000):
         for a in ext:
             stack.append(prefix + [a])
     return [p for p in paths if p], len(seen), edges
+
+
+# --------------------------------------------------------------------------
+# Controller rig (C13): real messages -> QNodeController -> Executor
+# --------------------------------------------------------------------------
+from netqasm.backend import messages as _M  # noqa: E402
+from netqasm.backend.qnodeos import QNodeController  # noqa: E402
+from netqasm.lang.instr.flavour import VanillaFlavour, NVFlavour  # noqa: E402
+
+
+class VController(QNodeController):
+    executor_kwargs: Dict[str, Any] = {}
+
+    def __init__(self, name="verif", flavour=None, **kw):
+        super().__init__(name=name, flavour=flavour or VanillaFlavour(), **kw)
+        self.finished_ids: List[int] = []
+        self.stopped = False
+
+    @classmethod
+    def _get_executor_class(cls, flavour=None):
+        return VExecutor
+
+    def stop(self):
+        self.stopped = True
+
+    def _mark_message_finished(self, msg_id, msg):
+        self.finished_ids.append(msg_id)
+
+
+CTRL_REGSET = [0, 1, 2, 3, 4, 5, 6, 7, 8, 9, 16, 17, 32, 33]
+
+
+def ctrl_lib(a: int) -> Dict[str, List[Dict[str, Any]]]:
+    I = lambda mn, *ops: {"mn": mn, "ops": list(ops)}
+    R0, R1, R2, R3, C0, C1, Q0, Q1 = 0, 1, 2, 3, 16, 17, 32, 33
+    return {
+        "alloc0": [I("qalloc", Q0)], "alloc1": [I("qalloc", Q1)], "free0": [I("qfree", Q0)], "free1": [I("qfree", Q1)],
+        "write": [I("set", R0, 10 + a), I("set", R1, 1), I("array", R1, 0), I("set", R2, 0), I("store", R0, 0, R2),
+                  I("ret_reg", R0), I("ret_arr", 0)],
+        "bump": [I("set", R3, 1), I("add", R0, R0, R3)],
+        "keep1": [I("array", C1, 3), I("create_epr", 5, 6, 7, 8, 9), I("wait_all", 3, C0, C1)],
+        "keepfree": [I("array", C1, 3), I("create_epr", 5, 6, 7, 8, 9), I("qfree", Q1), I("wait_all", 3, C0, C1)],
+    }
+
+
+class ControllerRun:
+    def __init__(self):
+        SharedMemoryManager.reset_memories()
+        self.ctrl = VController(name="verif")
+        self.ex: VExecutor = self.ctrl._executor  # type: ignore
+        self.ex.meas_script = [1, 0, 1, 0]
+        self.stack = RecordingStack()
+        self.ctrl.network_stack = self.stack
+        self.gens: Dict[int, Any] = {}
+        self.subid: Dict[int, int] = {}
+        self.msg_id = 0
+        clss = {c.mnemonic: c for c in isa.classes("vanilla")}
+        shapes = {e["mn"]: e["shape"] for e in isa.extract_table()["vanilla"]}
+        self._mk = lambda i: isa.build(clss[i["mn"]], shapes[i["mn"]], i["ops"])
+
+    def _send(self, msg):
+        """real bytes -> real deserialiser -> real handler generator"""
+        raw = bytes(msg)
+        m = _M.deserialize_host_msg(raw)
+        self.msg_id += 1
+        return self.ctrl.handle_netqasm_message(msg_id=self.msg_id, msg=m)
+
+    def init(self, a, n):
+        for _ in self._send(_M.InitNewAppMessage(app_id=a, max_qubits=n)):
+            pass
+        ex = self.ex
+        for r, v in ((5, 1), (6, a), (7, 1), (8, 2), (9, 3), (16, 0), (17, 10), (32, 0), (33, 1)):
+            ex._set_register(a, isa.reg(r), v)
+        ex._app_arrays[a].init_new_array(1, 1)
+        ex._app_arrays[a][1, 0] = 1
+        ex._app_arrays[a].init_new_array(2, 20)
+        ex._app_arrays[a][2, 0] = 0
+        ex._app_arrays[a][2, 1] = 1
+
+    def stop(self, a):
+        for _ in self._send(_M.StopAppMessage(app_id=a)):
+            pass
+        self.gens.pop(a, None)
+
+    def begin(self, a, p):
+        sub = Subroutine(instructions=[self._mk(i) for i in ctrl_lib(a)[p]], app_id=a, netqasm_version=(0, 0))
+        self.subid.pop(a, None)          # assigned by the executor when the generator first runs
+        self.gens[a] = self._send(_M.SubroutineMessage(subroutine=sub))
+
+    def step(self, a):
+        """'stepped' | 'blocked' | 'finished' | 'fault'"""
+        g = self.gens[a]
+        if a not in self.subid:
+            self.subid[a] = self.ex._next_subroutine_id
+        while True:
+            try:
+                y = next(g)
+            except StopIteration:
+                del self.gens[a]
+                return "finished"
+            except Exception as exc:
+                del self.gens[a]
+                self.last_fault = f"{type(exc).__name__}: {str(exc).splitlines()[0]}"[:160]
+                return "fault"
+            if y == STEP:
+                return "stepped"
+            if y == WAIT:
+                return "blocked"
+
+    def deliver(self, a, mode="alloc"):
+        """mode 'alloc': the stack reserves the qubit through the executor's allocator (as SquidASM does);
+        mode 'ext0'/'ext1': the stack itself picks the lowest / second lowest physical qubit that is not in
+        use (only used when the response can be handled at once, so that no reservation is needed)."""
+        if mode == "alloc":
+            phys = self.ex._get_unused_physical_qubit()
+        else:
+            used = set(self.ex._used_physical_qubit_addresses)
+            free = [p for p in range(len(used) + 2) if p not in used]
+            phys = free[0] if mode == "ext0" else free[1]
+        self.last_phys = phys
+        resp = LinkLayerOKTypeK(type=ReturnType.OK_K, create_id=0, logical_qubit_id=phys, directionality_flag=0,
+                                sequence_number=0, purpose_id=a, remote_node_id=1, goodness=0, goodness_time=0,
+                                bell_state=BellState(0))
+        self.ex._handle_epr_response(resp)
+
+    def retry(self):
+        self.ex._handle_pending_epr_responses()
+
+    def project(self):
+        ex = self.ex
+        apps = sorted(self.ctrl._active_app_ids)
+        out_apps = []
+        for a in (0, 1, 2):
+            if a not in apps:
+                # state that survives for an unregistered application is a defect: expose it
+                leftovers = [n for n, d in (("registers", ex._registers), ("arrays", ex._app_arrays), ("shared", ex._shared_memories),
+                                            ("unit-module", ex._qubit_unit_modules)) if a in d]
+                if SharedMemoryManager.get_shared_memory(ex._name, a) is not None:
+                    leftovers.append("shared-memory-registry")
+                out_apps.append({"none": True} if not leftovers else {"leftovers": leftovers})
+                continue
+            if a not in ex._registers or a not in ex._shared_memories or a not in ex._app_arrays or a not in ex._qubit_unit_modules:
+                out_apps.append({"broken": True})
+                continue
+            regs = regfile(ex._registers[a])
+            sh = ex._shared_memories[a]
+            shregs = regfile(sh._registers)
+            arrs, sharrs = ex._app_arrays[a]._arrays, sh._arrays._arrays
+            active = a in self.gens
+            out_apps.append({
+                "regs": [opt(regs.get(r)) for r in CTRL_REGSET], "shregs": [opt(shregs.get(r)) for r in CTRL_REGSET],
+                "arrs": [{"ex": x in arrs, "v": [opt(e) for e in arrs.get(x, [])]} for x in range(4)],
+                "sharrs": [{"ex": x in sharrs, "v": [opt(e) for e in sharrs.get(x, [])]} for x in range(4)],
+                "um": [(-1 if p is None else p) for p in ex._qubit_unit_modules[a]],
+                "active": active, "pc": ex._program_counters.get(self.subid.get(a), 0) if active else 0,
+                "req": len(ex._epr_create_requests.get((1, a), [])) > 0,
+            })
+        return {"apps": apps, "used": sorted(ex._used_physical_qubit_addresses), "app": out_apps,
+                "pend": [[r.purpose_id, r.logical_qubit_id] for r in ex._pending_epr_responses]}
+
+    # ---- which actions does the specification allow here (mirrors Controller.tla's guards) ----
+    def candidates(self, app_ids, um_sizes):
+        ex = self.ex
+        apps = set(self.ctrl._active_app_ids)
+        acts = []
+        pend_apps = {r.purpose_id for r in ex._pending_epr_responses}
+        for a in app_ids:
+            if a not in apps:
+                acts += [("init", a, n) for n in um_sizes]
+                continue
+            active = a in self.gens
+            has_req = len(ex._epr_create_requests.get((1, a), [])) > 0
+            if not active:
+                if not has_req and a not in pend_apps:
+                    acts.append(("stop", a))
+                for p in ctrl_lib(a):
+                    if p in ("keep1", "keepfree") and (has_req or a in pend_apps or len(ex._qubit_unit_modules[a]) < 2):
+                        continue
+                    acts.append(("begin", a, p))
+            else:
+                acts.append(("step", a))
+            if has_req and a not in pend_apps:
+                acts.append(("deliver", a, "alloc"))
+                um = ex._qubit_unit_modules[a]
+                if len(um) > 1 and um[1] is None:        # the pair's virtual qubit (1) is free: handled at once
+                    acts += [("deliver", a, "ext0"), ("deliver", a, "ext1")]
+        if ex._pending_epr_responses:
+            acts.append(("retry",))
+        return acts
+
+    def apply(self, act):
+        pre = self.project()
+        ev: Dict[str, Any] = {"a": act[0], "err": ""}
+        try:
+            if act[0] == "init":
+                ev.update(app=act[1], n=act[2])
+                self.init(act[1], act[2])
+            elif act[0] == "stop":
+                ev.update(app=act[1])
+                self.stop(act[1])
+            elif act[0] == "begin":
+                ev.update(app=act[1], p=act[2])
+                self.begin(act[1], act[2])
+            elif act[0] == "step":
+                ev.update(app=act[1])
+                if self.step(act[1]) == "blocked":
+                    return None
+            elif act[0] == "deliver":
+                ev.update(app=act[1], phys=-1)
+                self.deliver(act[1], act[2] if len(act) > 2 else "alloc")
+                ev["phys"] = self.last_phys
+            else:
+                self.retry()
+        except Exception as exc:
+            ev["err"] = f"{type(exc).__name__}: {str(exc).splitlines()[0]}"[:200]
+        post = self.project()
+        if act[0] == "retry" and post == pre and not ev["err"]:
+            return None
+        ev["post"] = post
+        return ev
+
+
+def controller_walk(seed: int, length: int, app_ids=(0, 1), um_sizes=(1, 2)):
+    import random as _r
+    rng = _r.Random(seed)
+    run = ControllerRun()
+    evs = []
+    for _ in range(length):
+        acts = run.candidates(app_ids, um_sizes)
+        # bias towards progress: stepping active subroutines
+        rng.shuffle(acts)
+        acts.sort(key=lambda a: 0 if a[0] in ("step", "deliver", "retry") and rng.random() < 0.6 else 1)
+        ev = None
+        for a in acts:
+            ev = run.apply(a)
+            if ev is not None:
+                break
+        if ev is None:
+            break
+        evs.append(ev)
+        if ev["err"]:
+            break
+    return evs
